@@ -14,7 +14,9 @@ LEAN_TARGETS = ["PasslibVerif.Props.C02", "PasslibVerif.Props.C02Formats"]
 CODE_GROUPS = [("c02_code_des", ["PasslibVerif.Props.C02CodeDes", "PasslibVerif.Props.C02CodeDesExamples", "PasslibVerif.Props.C02CodeDesExamples2", "PasslibVerif.Props.C02CodeDesExamples3"],
                 "code-model-des-family"),
                ("c02_code_iter", ["PasslibVerif.Props.C02CodeIter", "PasslibVerif.Props.C02CodeIterSun", "PasslibVerif.Props.C02CodeIterExamples", "PasslibVerif.Props.C02CodeIterExamples2"],
-                "code-model-iterated-digests")]
+                "code-model-iterated-digests"),
+               ("c02_code_digest", ["PasslibVerif.Props.C02CodeDigest", "PasslibVerif.Props.C02CodeDigestKdf", "PasslibVerif.Props.C02CodeDigestKdfExamples",
+                                    "PasslibVerif.Props.C02CodeDigestKdfExamples2", "PasslibVerif.Props.C02CodeDigestKdfExamples3"], "code-model-digest-family")]
 LEAN_TARGETS += [t for g in CODE_GROUPS for t in g[1]]
 ASSUMPTIONS = [
     "hashlib's MD5/SHA-256/SHA-512 are external C code: the theorems are about passlib's control structure over the FIPS 180-4 / RFC 1321 "
